@@ -96,6 +96,9 @@ type sysCase struct {
 	// proxied answers pause for 1.3 s mid-body; the file says global scrape_timeout 1s, job0 scrape_timeout 3s
 	FileMode   bool `json:"fileMode,omitempty"`
 	SlowTarget int  `json:"slowTarget,omitempty"`
+	// LateJob: one more job, whose file_sd_configs match no file (yet): its service discovery never delivers a first
+	// result, the coordinator starts after --sd.init-timeout (6s here) and coordinates the other jobs
+	LateJob bool `json:"lateJob,omitempty"`
 }
 
 func farmBody(t *sysTarget) []byte {
@@ -514,6 +517,9 @@ func writeConfig(path, farmHost string, c *sysCase, dropped map[int]bool, rule b
 			}
 		}
 	}
+	if c.LateJob {
+		fmt.Fprintf(&b, "- job_name: late\n  file_sd_configs:\n  - files: ['%s/late-*.json']\n", filepath.Dir(path))
+	}
 	_ = ioutil.WriteFile(path, []byte(b.String()), 0644)
 	return b.String()
 }
@@ -701,7 +707,7 @@ func runSys(c *sysCase) (vs []vkit.Violation, classes []string, infra error) {
 	clog, _ := os.Create(filepath.Join(dir, "coordinator.log"))
 	coord := limited(bin, "coordinator", "--shard.type", "static", "--shard.static-file", staticFile, "--config.file", cfgFile,
 		"--coordinator.interval", "40ms", "--web.address", fmt.Sprintf("127.0.0.1:%d", cport),
-		"--shard.max-process-series", fmt.Sprint(c.MaxProc), "--sd.init-timeout", "20s", "--shard.max-head-series", fmt.Sprint(c.MaxHead))
+		"--shard.max-process-series", fmt.Sprint(c.MaxProc), "--sd.init-timeout", map[bool]string{false: "20s", true: "6s"}[c.LateJob], "--shard.max-head-series", fmt.Sprint(c.MaxHead))
 	if c.SAPath {
 		_ = os.MkdirAll(filepath.Join(dir, "sa-coord"), 0755)
 		_ = ioutil.WriteFile(filepath.Join(dir, "sa-coord", "token"), []byte("token-of-the-coordinator"), 0600)
@@ -1118,6 +1124,9 @@ func runSys(c *sysCase) (vs []vkit.Violation, classes []string, infra error) {
 	if c.FileMode {
 		classes = append(classes, "sys/sidecars-read-the-file-themselves")
 	}
+	if c.LateJob {
+		classes = append(classes, "sys/job-whose-discovery-never-answers")
+	}
 	if c.SlowTarget != 0 {
 		classes = append(classes, "sys/slow-target-under-job-level-timeout")
 	}
@@ -1202,6 +1211,7 @@ func genSys(t *rapid.T, faults bool) *sysCase {
 		}
 	}
 	c.FileMode = rapid.IntRange(0, 2).Draw(t, "fileMode") == 0
+	c.LateJob = rapid.IntRange(0, 3).Draw(t, "lateJob") == 0
 	if c.FileMode && rapid.IntRange(0, 1).Draw(t, "slow") == 0 {
 		for _, tg := range c.Targets {
 			if tg.Job == 0 && !tg.Down && int64(tg.Series+tg.Dropped) < c.MaxProc {
